@@ -544,7 +544,7 @@ pub fn run(args: &Args) -> Option<i32> {
     mon.assume("capacities used by the programs: 32 (store key, role, token, executor) and 64 (market); 1,2,3,8 are added to make exhaustive enumeration feasible");
     mon.assume("the `initialize` instruction of this build only admits the empty store key (no `multi-store` feature); non-empty keys are exercised through Store::init directly");
     let quiet = hostsvm::QuietStdout::new();
-    let shards = args.scale(128, 384);
+    let shards = args.scale(128, 192);
     let lib_random = args.scale(150_000, 2_000_000);
     let ix_random = args.scale(60, 240) as usize;
     let seed = args.seed;
